@@ -92,15 +92,22 @@ def drive : Nat → SrcP.View → Bool → SrcP.View
       | .redirect y => drive n (SrcP.inv r.v y u).v true
       | _ => drive n r.v true
 
-theorem converge_all : SrcP.allViews.all (fun v => !(v.canceled && v.installed && !v.suspended && !v.needsDelete) ||
+theorem converge_all : SrcP.allViews.all (fun v => !(v.canceled && v.installed && !v.suspended) ||
     (final (drive 4 v false) && final (drive 4 v true))) = true := by decide +kernel
 
 theorem cancel_converges (v : SrcP.View) (hc : v.canceled = true) (hi : v.installed = true) (hs : v.suspended = false)
-    (hd : v.needsDelete = false) (u : Bool) : final (drive 4 v u) = true := by
+    (u : Bool) : final (drive 4 v u) = true := by
   have := List.all_eq_true.mp converge_all v (SrcP.mem_allViews v)
-  simp only [hc, hi, hs, hd, Bool.not_false, Bool.and_self, Bool.not_true, Bool.false_or, Bool.and_eq_true] at this
+  simp only [hc, hi, hs, Bool.not_false, Bool.and_self, Bool.not_true, Bool.false_or, Bool.and_eq_true] at this
   cases u
   · exact this.1
   · exact this.2
+
+/-- **the kernel registration is given up on the kevent queue only** - by cancellation and by the deferred deletion that follows a
+    peer hang-up alike (F27: the latter used to run on whatever queue the source was invoked on, concurrently with the manager
+    thread and the other sources of the descriptor, whose shared mux-note it edits) -/
+theorem unregister_on_kevent_queue (v : SrcP.View) (c : SrcP.Q) (u : Bool) (h0 : v.deleted = false)
+    (h1 : (SrcP.inv v c u).v.deleted = true) : c = SrcP.dkq v ∨ v.timerDisarmed = true :=
+  SrcP.unregister_on_kevent_queue v c u h0 h1
 
 end C16
